@@ -32,6 +32,7 @@ def showPacket : Packet → String
     memoryview (M), iterator (I) or generator (G); to the model they are the same bytes -/
 def feedOp (op : String) : List Char :=
   match op.toList with
+  | 'O' :: h => 'P' :: (h.dropWhile (· != ':')).drop 1      -- `O<n>:<hex>`: process() with another parser busy in the middle
   | c :: h => if "ALMIG".toList.contains c then 'P' :: h else c :: h
   | [] => []
 
@@ -47,6 +48,8 @@ def ubxStep (acc : Parser × List String) (op : String) : Parser × List String 
   | ['D'] => ({ p with queue := [] }, out ++ p.queue.map showPacket ++ ["."])
   | ['R'] => (p.restart, out)
   | 'T' :: _ => (p, out)                  -- time passing between two calls: no part of the parser's state
+  | 'C' :: _ => (p, out)                  -- the history goes on with a copy of the parser (deepcopy, copy, pickle): the same value
+  | 'H' :: c => (p.setFilters (parseCids (String.mk c)), out)     -- set_filters with the list object passed before, changed in place
   | ['E'] => (p.emptyQueue, out)
   | 'F' :: c => (p.setFilters (parseCids (String.mk c)), out)
   | 'S' :: c => (p.setFilter (parseCid (String.mk c)), out)
@@ -317,11 +320,19 @@ def runHelper (f : List String) : String :=
       match Gen.UbxCfgRate.decode (parseHex pl) with
       | .error e => "EXC:" ++ showExc e
       | .ok (vs, _) =>
-        let r := parseInt r
-        if r < 1 ∨ r > 10 then "EXC:AssertionError"
-        else
-          let (m, n) := setRateInHz r.toNat
-          encodeOr Gen.UbxCfgRate (setInts Gen.UbxCfgRate vs [("measRate", m), ("navRate", n)])
+        match r.splitOn "/" with
+        | [a, b] =>       -- a rate that is no whole number: a/b Hz
+          let (num, den) := (a.toNat!, b.toNat!)
+          if den = 0 ∨ num < den ∨ num > 10 * den then "EXC:AssertionError"
+          else
+            let (m, n) := setRateQ num den
+            encodeOr Gen.UbxCfgRate (setInts Gen.UbxCfgRate vs [("measRate", m), ("navRate", n)])
+        | _ =>
+          let r := parseInt r
+          if r < 1 ∨ r > 10 then "EXC:AssertionError"
+          else
+            let (m, n) := setRateInHz r.toNat
+            encodeOr Gen.UbxCfgRate (setInts Gen.UbxCfgRate vs [("measRate", m), ("navRate", n)])
   | "save" :: m :: rest =>
       let (c, s, l) := cfgSave m.toNat!
       let t := Gen.UbxCfgCfgAction
@@ -661,6 +672,10 @@ def runCkIl (ops : String) : String :=
     let (objs, out) := acc
     match op.toList with
     | ['N'] => (objs ++ [Ck.zero], out)
+    | 'C' :: r =>       -- a copy of object k is one more object with the same sums
+        (match (String.ofList r).splitOn ":" with
+         | [k, _] => (objs ++ [objs.getD k.toNat! Ck.zero], out)
+         | _ => acc)
     | 'A' :: r =>
         (match (String.ofList r).splitOn ":" with
          | [k, h] => (objs.modify k.toNat! (fun c => c.addAll (parseHex h)), out)
@@ -724,6 +739,7 @@ def handle (line : String) : String :=
   | ["ch", n, d] => runCh n.toNat! (parseHex d)
   | ["keytab", ops] => runKeyTab ops
   | ["subitem", _, f, v] => runSubItem f (parseInt v)
+  | ["subitem", _, f, v, _] => runSubItem f (parseInt v)      -- (what else the user's class defines is not the codec's business)
   | ["assign", c, pl, f, v] => runAssign c pl f v
   | ["assign", c, pl, f, v, _] => runAssign c pl f v
   | "keypack" :: rest => runKeyPack rest
